@@ -246,36 +246,28 @@ func runCRDTConcurrent(c *kernel.Ctx) {
 		}()
 		world.Settle() // parks at its first boundary (or finishes) before the next task exists
 	}
-	finished := 0
-	for steps := 0; finished < ntasks; steps++ {
-		world.Settle()
-		for more := true; more; {
-			select {
-			case ti := <-done:
-				finished++
-				c.Logf("task %d finished", ti)
-			default:
-				more = false
-			}
-		}
-		if finished == ntasks {
-			break
-		}
-		parked := baton.Parked()
-		if len(parked) == 0 || steps > 400 {
-			c.Harnessf("concurrent campaign: %d of %d tasks finished, %d parked but none can run", finished, ntasks, baton.Waiting())
-		}
-		p := parked[t.Choose(len(parked))]
+	_, stuck := baton.Drive(t, world.Settle, func(p *kernel.Parked, runnable, waiting int) {
 		cmu.Lock()
 		ti := taskOf[p.Goid]
 		cmu.Unlock()
-		c.Logf("task %d crosses %s (%d of %d parked can run)", ti, p.Site, len(parked), baton.Waiting())
-		if baton.Waiting() > len(parked) {
+		c.Logf("task %d crosses %s (%d of %d parked can run)", ti, p.Site, runnable, waiting)
+		if waiting > runnable {
 			c.Probe("task-kept-parked-because-mutex-is-held")
 		}
 		c.Fault("interleaving-at-mutex-boundary")
 		c.Step()
-		baton.Release(p)
+	}, 600)
+	if stuck {
+		c.Harnessf("concurrent campaign: %d tasks parked but none can run", baton.Waiting())
+	}
+	world.Settle()
+	for finished := 0; finished < ntasks; finished++ {
+		select {
+		case ti := <-done:
+			c.LogUnordered("task %d finished", ti)
+		default:
+			c.Harnessf("concurrent campaign: a task neither finished nor parked")
+		}
 	}
 	baton.ReleaseAll()
 	world.Settle()
